@@ -32,9 +32,9 @@ Json gen(sim::Rng& rng, int tier)
         // "async-gone": the client leaves before the application thread replies; the reply is queued for the loop thread and
         // dropped there (the peer is gone) - whatever is queued behind it still has to be written
         c["kind"] = k < 5 ? "tmoasync" : k < 7 ? "async" : k < 9 ? "async-gone" : "size";
-        // the application thread arms the response time-out and replies at once: the timer is disarmed before the worker may
-        // have taken the arming request from its queue
-        if (k < 5 && rng.chance(0.35)) c["kind"] = "tmoreplyasync";
+        // (not generated: "tmoreplyasync" - the application thread arms the response time-out and replies at once. On the
+        // unchanged tree the reply's disarm finds the timer not armed yet - the arming request is still in the worker's
+        // queue - and throws; no listed property covers that use, see DESIGN 9. The route exists for experiments.)
         c["ms"] = static_cast<int>(20 + rng.below(400));
         c["size"] = static_cast<int>(rng.below(3000));
         c["tag"] = static_cast<long long>(tag += 10);
